@@ -9,10 +9,12 @@ Property theorems about
   `AnalyticProblems.h` on every run, so these proofs are re-checked against the current source).
 
 All statements are over `Rat` (exact arithmetic) and quantify over every size `n`, every
-symmetric matrix `K`, every box and every finite sequence of admissible operations.
-Helper lemmas: `Lemmas/Smo.lean`.
+symmetric matrix `K`, every box and every finite sequence of admissible operations (SMO steps of
+both problem kinds, coordinate flips, shrink, unshrink).
+Helper lemmas: `Lemmas/Smo.lean` (invariant, flips, shrink/unshrink), `Lemmas/SmoStep.lean` (SMO steps),
+`Lemmas/SmoObjective.lean` (dual objective), `Lemmas/Box2d.lean` (shape of the generated 2-D box solver).
 -/
-import SharkVerif.Lemmas.Smo
+import SharkVerif.Lemmas.SmoObjective
 import Mathlib.Tactic.FieldSimp
 namespace SharkVerif.C08
 open SharkVerif.Qp SharkVerif.Gen.Analytic SharkVerif.Smo
@@ -82,25 +84,99 @@ theorem box2d_in_box (ai aj gi gj Qii Qij Qjj Li Ui Lj Uj : Rat)
 example : (0:Rat) ≤ (solveQuadratic2DBox (1/2) (1/2) 1 (-1) 2 0 2 0 1 0 1).1 :=
   (box2d_in_box (1/2) (1/2) 1 (-1) 2 0 2 0 1 0 1 (by norm_num) (by norm_num)).1.1
 
+/-- **box2d_gain_nonneg**: the (repaired) 2-D box sub-solver never decreases the objective
+`μᵀg − ½ μᵀQμ` of its sub-problem, for every box and every start point (not even required to lie in the box),
+whenever the diagonal entry `Qii` is non-negative (true for every PSD matrix).  The hypothesis is used in the interior
+branch only (`det > 1e-12` and `Qii ≥ 0` make `Q` positive definite); the edge branch compares every candidate's gain
+with 0 and keeps the current point if none improves, so it needs no hypothesis at all. -/
+theorem box2d_gain_nonneg (ai aj gi gj Qii Qij Qjj Li Ui Lj Uj : Rat) (hQ : 0 ≤ Qii) :
+    0 ≤ gain2 gi gj Qii Qij Qjj ((solveQuadratic2DBox ai aj gi gj Qii Qij Qjj Li Ui Lj Uj).1 - ai)
+        ((solveQuadratic2DBox ai aj gi gj Qii Qij Qjj Li Ui Lj Uj).2 - aj) := by
+  rw [box2d_unfold]
+  split
+  · rename_i hdet
+    split
+    · rw [litE] at hdet
+      have hd : 0 < Qii * Qjj - Qij * Qij := by
+        have : (0:Rat) < 1 / 1000000000000 := by norm_num
+        linarith
+      simp only [add_sub_cancel_left]
+      exact interior_gain_nonneg gi gj Qii Qij Qjj hQ hd
+    · exact edgeRes_gain_nonneg ..
+  · exact edgeRes_gain_nonneg ..
+
+example : (0 : Rat) ≤ gain2 1 (-1) 2 0 2 ((solveQuadratic2DBox (1/2) (1/2) 1 (-1) 2 0 2 0 1 0 1).1 - 1/2)
+    ((solveQuadratic2DBox (1/2) (1/2) 1 (-1) 2 0 2 0 1 0 1).2 - 1/2) :=
+  box2d_gain_nonneg (1/2) (1/2) 1 (-1) 2 0 2 0 1 0 1 (by norm_num)
+
+/-- the former defect F5 (`Q = 1e-6·I`, `g = 0`, `α = (½,½)`, box `[0,1]²`: the unrepaired code returned `(0, ½)` with
+gain `−1.25e-7`): the regenerated definition keeps the current point. -/
+theorem box2d_F5_instance_repaired :
+    solveQuadratic2DBox (1/2 : Rat) (1/2) 0 0 (1/1000000) 0 (1/1000000) 0 1 0 1 = (1/2, 1/2) := by
+  rw [box2d_unfold]
+  have hdet : ¬ ((1/1000000 : Rat) * (1/1000000) - 0 * 0 > (1.0e-12 : Rat)) := by rw [litE]; norm_num
+  rw [if_neg hdet]
+  simp only [edgeRes, gainK, choose4, solveQuadraticEdge, smin, smax, lit0, lit05, litE]
+  norm_num
+
+/-- the hypothesis `0 ≤ Qii` cannot be dropped for inputs the C++ accepts: for the negative definite `Q = −I` the
+"free solution" is the minimiser and the generated function moves there (`g = (1/10, 0)`, start `(½,½)`, box `[0,1]²`:
+result `(2/5, ½)`, gain `−1/200`).  Not reachable with kernel (PSD) matrices. -/
+theorem box2d_gain_negative_nonpsd_witness :
+    gain2 (1/10) 0 (-1) 0 (-1) ((solveQuadratic2DBox (1/2 : Rat) (1/2) (1/10) 0 (-1) 0 (-1) 0 1 0 1).1 - 1/2)
+      ((solveQuadratic2DBox (1/2 : Rat) (1/2) (1/10) 0 (-1) 0 (-1) 0 1 0 1).2 - 1/2) < 0 := by
+  rw [box2d_unfold]
+  have hdet : ((-1 : Rat) * (-1) - 0 * 0 > (1.0e-12 : Rat)) := by rw [litE]; norm_num
+  rw [if_pos hdet]
+  norm_num [gain2]
+
 /-! ## 2. The state invariant over all operation sequences -/
 
-/-- operations on the problem state that do not involve a sub-problem solution -/
+/-- operations on the problem state: everything `QpSolver::solve` does to the problem object -/
 inductive Op where
   | flip (i j : Nat)        -- flipCoordinates
   | unshrink
   | shrink (eps : Rat)
+  | smo (i j : Nat)         -- updateSMO (either problem kind; `i = j` is the 1-D step of the box kind)
   deriving Repr
 
-/-- admissibility (the C++ preconditions): flips stay inside the active or inside the shrunk block -/
+/-- admissibility (the C++ preconditions): flips stay inside the active or inside the shrunk block; the working set
+of an SMO step is active (`SIZE_CHECK(i < active())`), and for the equality-constrained kind it is oriented the way
+every selection criterion returns it: `i` is the "up" candidate, `g_i ≥ g_j` (see
+`smo_svm_orientation_witness` for why this cannot be dropped, and `selectMVP_valid` for the criterion). -/
 def Op.valid (s : RS) : Op → Prop
   | .flip i j => i < s.n ∧ j < s.n ∧ (i < s.active ↔ j < s.active)
   | .unshrink => True
   | .shrink _ => True
+  | .smo i j => i < s.active ∧ j < s.active ∧ (s.eqc = true → s.g j ≤ s.g i)
 
 def apply (s : RS) : Op → RS
   | .flip i j => s.flip i j
   | .unshrink => s.unshrink
   | .shrink eps => (s.shrink eps).1
+  | .smo i j => s.updateSMO i j
+
+/-- **`SvmProblem::updateSMO` + edge bookkeeping preserves the invariant** (equality-constrained kind) -/
+theorem updateSMO_inv_svm {s : RS} (h : Inv s) (he : s.eqc = true) {i j : Nat} (hi : i < s.active)
+    (hj : j < s.active) (hg : s.g j ≤ s.g i) : Inv (s.updateSMO i j) :=
+  inv_updateSMO_svm h he hi hj hg
+
+/-- **`BoxConstrainedProblem::updateSMO` + edge bookkeeping preserves the invariant** (uses the generated
+`solveQuadraticEdge` / `solveQuadratic2DBox` through `edge_in_box` / `box2d_in_box`); any working set, `i = j` included -/
+theorem updateSMO_inv_box {s : RS} (h : Inv s) (he : s.eqc = false) {i j : Nat} (hi : i < s.active)
+    (hj : j < s.active) : Inv (s.updateSMO i j) :=
+  inv_updateSMO_box h he (fun a g Q L U hLU => edge_in_box a g Q L U hLU)
+    (fun ai aj gi gj Qii Qij Qjj Li Ui Lj Uj hi hj => box2d_in_box ai aj gi gj Qii Qij Qjj Li Ui Lj Uj hi hj) hi hj
+
+/-- the orientation hypothesis of the equality-constrained step is necessary: `n = 2`, `K = I`, `lin = (0,1)`,
+box `[0,1]²`, cold start; the wrongly oriented working set `(0,1)` (`g_0 = 0 < g_1 = 1`) makes the model of
+`SvmProblem::updateSMO` step to `α_0 = −½`, outside the box. -/
+theorem smo_svm_orientation_witness :
+    ((State.init 2 (fun a b => if a = b then (1 : Rat) else 0) true false (fun k => if k = 0 then 0 else 1)
+        (fun _ => 0) (fun _ => 1)).updateSMO 0 1).alpha 0 = -1 / 2 := by
+  rw [updateSMO_svm_alpha rfl]
+  simp only [svmR, svmDen, State.init, State.boxMax, State.boxMin, State.q, smin, smax, upd, lit0, lit2, litE]
+  norm_num
 
 /-- every operation preserves the invariant -/
 theorem apply_inv {s : RS} (h : Inv s) {op : Op} (hv : op.valid s) : Inv (apply s op) := by
@@ -108,8 +184,12 @@ theorem apply_inv {s : RS} (h : Inv s) {op : Op} (hv : op.valid s) : Inv (apply 
   | flip i j => exact inv_flip h hv.1 hv.2.1 hv.2.2
   | unshrink => exact inv_unshrink h
   | shrink eps => exact inv_shrink h eps
+  | smo i j =>
+    cases he : s.eqc
+    · exact updateSMO_inv_box h he hv.1 hv.2.1
+    · exact updateSMO_inv_svm h he hv.1 hv.2.1 (hv.2.2 he)
 
-/-- run a sequence; `none` if some operation is not admissible in the state it is applied to -/
+/-- run a sequence of operations -/
 def run : RS → List Op → RS
   | s, [] => s
   | s, op :: ops => run (apply s op) ops
@@ -119,8 +199,9 @@ def validSeq : RS → List Op → Prop
   | _, [] => True
   | s, op :: ops => op.valid s ∧ validSeq (apply s op) ops
 
-/-- **Invariant for every reachable state (flip / shrink / unshrink histories).** -/
-theorem reachable_inv_partial (ops : List Op) : ∀ (s : RS), Inv s → validSeq s ops → Inv (run s ops) := by
+/-- **Invariant for every reachable state**: every finite history of SMO steps (both problem kinds), coordinate flips,
+shrink and unshrink events. -/
+theorem reachable_inv (ops : List Op) : ∀ (s : RS), Inv s → validSeq s ops → Inv (run s ops) := by
   induction ops with
   | nil => intro s h _; exact h
   | cons op ops ih => intro s h hv; exact ih _ (apply_inv h hv.1) hv.2
@@ -143,18 +224,23 @@ theorem init_inv (n : Nat) (K : Nat → Nat → Rat) (eqc sh : Bool) (lin L U : 
   · intro _ a _; rw [hze a]; simp [State.init]
   · intro k hk1 hk2; exact absurd hk2 (Nat.not_lt.mpr hk1)
 
+example : ∃ s : RS, Inv s ∧ validSeq s [Op.smo 0 1, Op.shrink (1/1000), Op.unshrink] :=
+  ⟨State.init 2 (fun _ _ => 1) false true (fun _ => 1) (fun _ => 0) (fun _ => 1),
+   init_inv 2 _ false true _ _ _ (fun _ _ => rfl) (fun _ _ => by norm_num),
+   ⟨⟨by decide, by decide, fun h => by simp [State.init] at h⟩, trivial, trivial, trivial⟩⟩
+
 /-- **grad_inv**: after any admissible history the maintained gradient of every active variable is
 `lin − K·α` (under the current permutation). -/
 theorem grad_inv (s : RS) (h : Inv s) (ops : List Op) (hv : validSeq s ops) (a : Nat)
     (ha : a < (run s ops).active) :
     (run s ops).g a = (run s ops).lin a - Kalpha (run s ops) a :=
-  (reachable_inv_partial ops s h hv).grad a ha
+  (reachable_inv ops s h hv).grad a ha
 
 /-- **gradient of ALL variables after un-shrinking**, whatever happened before. -/
 theorem grad_all_after_unshrink (s : RS) (h : Inv s) (ops : List Op) (hv : validSeq s ops) (a : Nat)
     (ha : a < s.n) (hn : (run s ops).n = s.n) :
     (run s ops).unshrink.g a = (run s ops).unshrink.lin a - Kalpha (run s ops).unshrink a := by
-  have hi := inv_unshrink (reachable_inv_partial ops s h hv)
+  have hi := inv_unshrink (reachable_inv ops s h hv)
   apply hi.grad
   have : (run s ops).unshrink.active = (run s ops).n := by
     unfold State.unshrink; split
@@ -170,13 +256,233 @@ theorem box_flags_perm_inv (s : RS) (h : Inv s) (ops : List Op) (hv : validSeq s
     (∀ k, t.active ≤ k → k < t.n → (t.alpha k = t.L k ∨ t.alpha k = t.U k)) ∧
     (∀ k, k < t.n → t.perm k < t.n) ∧ (∀ a b, a < t.n → b < t.n → t.perm a = t.perm b → a = b) := by
   intro t
-  have hi := reachable_inv_partial ops s h hv
+  have hi := reachable_inv ops s h hv
   exact ⟨hi.box, fun k hk => ⟨hi.flo k hk, hi.fup k hk⟩, hi.shrunk, hi.perm_lt, hi.perm_inj⟩
 
 /-- **edge_inv**: `m_gradientEdge` is `lin − K·α` restricted to the variables at a bound. -/
 theorem edge_inv (s : RS) (h : Inv s) (ops : List Op) (hv : validSeq s ops)
     (hs : (run s ops).shrinkOn = true) (a : Nat) (ha : a < (run s ops).n) :
     (run s ops).gEdge a = (run s ops).lin a - KalphaEdge (run s ops) a :=
-  (reachable_inv_partial ops s h hv).edge hs a ha
+  (reachable_inv ops s h hv).edge hs a ha
+
+
+/-! ## 3. The equality constraint -/
+
+/-- a quantity that does not depend on the order of the variables is unchanged by flips, unshrink and shrink; an SMO
+step changes it as the step itself does -/
+theorem apply_orderFree {β : Type} {F : RS → β} (hF : OrderFree F) {s : RS} (h : Inv s) {op : Op} (hv : op.valid s)
+    (hsmo : ∀ i j, op = Op.smo i j → F (s.updateSMO i j) = F s) : F (apply s op) = F s := by
+  cases op with
+  | flip i j => exact hF.flip s i j hv.1 hv.2.1
+  | unshrink => exact hF.unshrink s
+  | shrink eps => exact hF.shrink h eps
+  | smo i j => exact hsmo i j rfl
+
+/-- size and problem kind never change -/
+theorem run_n_eqc (ops : List Op) : ∀ (s : RS), Inv s → validSeq s ops →
+    (run s ops).n = s.n ∧ (run s ops).eqc = s.eqc := by
+  induction ops with
+  | nil => intro s _ _; exact ⟨rfl, rfl⟩
+  | cons op ops ih =>
+    intro s h hv
+    obtain ⟨h1, h2⟩ := ih _ (apply_inv h hv.1) hv.2
+    have e1 : (apply s op).n = s.n := apply_orderFree orderFree_n h hv.1 (fun i j _ => (updateSMO_frame s i j).1)
+    have e2 : (apply s op).eqc = s.eqc := apply_orderFree orderFree_eqc h hv.1 (fun i j _ => (updateSMO_frame s i j).2.1)
+    exact ⟨h1.trans e1, h2.trans e2⟩
+
+/-- **sum_inv (one step)**: `SvmProblem::updateSMO` leaves `Σα` unchanged. -/
+theorem sum_inv_step {s : RS} (h : Inv s) (he : s.eqc = true) {i j : Nat} (hi : i < s.active) (hj : j < s.active)
+    (hg : s.g j ≤ s.g i) : alphaSum (s.updateSMO i j) = alphaSum s :=
+  alphaSum_updateSMO_svm h he hi hj hg
+
+/-- **sum_inv**: for the equality-constrained problem the sum of the coefficients is the same after every admissible
+history (SMO steps, flips, shrink, unshrink) as before it. -/
+theorem sum_inv (ops : List Op) : ∀ (s : RS), Inv s → s.eqc = true → validSeq s ops →
+    alphaSum (run s ops) = alphaSum s := by
+  induction ops with
+  | nil => intro s _ _ _; rfl
+  | cons op ops ih =>
+    intro s h he hv
+    have he' : (apply s op).eqc = true :=
+      (apply_orderFree orderFree_eqc h hv.1 (fun i j _ => (updateSMO_frame s i j).2.1)).trans he
+    have e : alphaSum (apply s op) = alphaSum s :=
+      apply_orderFree orderFree_alphaSum h hv.1 (fun i j hop => by
+        subst hop; exact sum_inv_step h he hv.1.1 hv.1.2.1 (hv.1.2.2 he))
+    exact (ih _ (apply_inv h hv.1) he' hv.2).trans e
+
+example : ∃ s : RS, Inv s ∧ s.eqc = true ∧ validSeq s [Op.smo 0 1] :=
+  ⟨State.init 2 (fun _ _ => 1) true true (fun k => if k = 0 then 1 else 0) (fun _ => -1) (fun _ => 1),
+   init_inv 2 _ true true _ _ _ (fun _ _ => rfl) (fun _ _ => by norm_num), rfl,
+   ⟨⟨by decide, by decide, fun _ => by simp [State.init]⟩, trivial⟩⟩
+
+/-! ## 4. The dual objective never decreases -/
+
+/-- **smo_step_gain**: the equality-constrained clipped step with working set `(i,j)`, `g_i ≥ g_j`, moves
+`α_i += μ`, `α_j −= μ` with a step length `0 ≤ μ ≤ (g_i − g_j) / max(K_ii + K_jj − 2K_ij, 1e-12)` that keeps both
+coefficients in their boxes, and changes the dual objective by exactly
+`μ·(g_i − g_j) − ½·μ²·(K_ii + K_jj − 2K_ij)`, which is at least `½·μ·(g_i − g_j) ≥ 0`.
+
+Which hypothesis does the `max(denominator, 1e-12)` guard need?  None: `max(κ,1e-12) ≥ κ`, so the guarded step is
+never longer than the exact line maximiser when `κ ≥ 0` (it is merely shorter when `0 ≤ κ < 1e-12`), and for `κ < 0`
+(not PSD) the second-order term only adds.  So not even `κ ≥ 0` is needed for monotonicity; symmetry of `K` and the
+gradient invariant (both part of `Inv`) are. -/
+theorem smo_step_gain {s : RS} (h : Inv s) (he : s.eqc = true) {i j : Nat} (hi : i < s.active) (hj : j < s.active)
+    (hg : s.g j ≤ s.g i) :
+    let μ := (svmR s i j).1
+    let κ := s.diag i + s.diag j - 2 * s.q i j
+    (0 ≤ μ ∧ μ ≤ (s.g i - s.g j) / svmDen s i j ∧ μ ≤ s.U i - s.alpha i ∧ μ ≤ s.alpha j - s.L j) ∧
+    dualObjective (s.updateSMO i j) - dualObjective s = μ * (s.g i - s.g j) - (1 / 2) * (μ * μ) * κ ∧
+    (1 / 2) * (μ * (s.g i - s.g j)) ≤ dualObjective (s.updateSMO i j) - dualObjective s ∧
+    dualObjective s ≤ dualObjective (s.updateSMO i j) := by
+  intro μ κ
+  have hin : i < s.n := Nat.lt_of_lt_of_le hi h.act_le
+  have hjn : j < s.n := Nat.lt_of_lt_of_le hj h.act_le
+  obtain ⟨h0, h1, _, _, h4, h5⟩ := svmR_spec h hin hjn hg
+  have hd := dual_updateSMO_svm h he hi hj hg
+  have hge := svm_gain_ge h hin hjn hg
+  have hnn : 0 ≤ (svmR s i j).1 * (s.g i - s.g j) := mul_nonneg h0 (by linarith)
+  refine ⟨⟨h0, h1, h4, h5⟩, hd, ?_, ?_⟩
+  · rw [hd]; exact hge
+  · linarith
+
+/-- the guarded curvature of `smo_step_gain` is what the C++ computes: `max(K_ii + K_jj − 2K_ij, 1e-12)` -/
+theorem svmDen_is_guard (s : RS) (i j : Nat) :
+    svmDen s i j = max (s.diag i + s.diag j - 2 * s.q i j) (1 / 1000000000000) := by
+  unfold svmDen smax; rw [lit2, litE]
+  split
+  · rename_i h; exact (max_eq_right (le_of_lt h)).symm
+  · rename_i h; exact (max_eq_left (not_lt.mp h)).symm
+
+/-- **strict progress**: a strictly violating pair with room to move (`α_i < U_i`, `α_j > L_j`) gains strictly. -/
+theorem smo_step_gain_pos {s : RS} (h : Inv s) (he : s.eqc = true) {i j : Nat} (hi : i < s.active) (hj : j < s.active)
+    (hg : s.g j < s.g i) (hui : s.alpha i < s.U i) (hlj : s.L j < s.alpha j) :
+    dualObjective s < dualObjective (s.updateSMO i j) := by
+  have hin : i < s.n := Nat.lt_of_lt_of_le hi h.act_le
+  have hjn : j < s.n := Nat.lt_of_lt_of_le hj h.act_le
+  have hp := svmR_pos h hin hjn hg hui hlj
+  have := (smo_step_gain h he hi hj (le_of_lt hg)).2.2.1
+  have hpos : 0 < (svmR s i j).1 * (s.g i - s.g j) := mul_pos hp (by linarith)
+  linarith
+
+example : ∃ (s : RS) (i j : Nat), Inv s ∧ s.eqc = true ∧ i < s.active ∧ j < s.active ∧ s.g j < s.g i ∧
+    s.alpha i < s.U i ∧ s.L j < s.alpha j :=
+  ⟨State.init 2 (fun _ _ => 1) true true (fun k => if k = 0 then 1 else 0) (fun _ => -1) (fun _ => 1), 0, 1,
+   init_inv 2 _ true true _ _ _ (fun _ _ => rfl) (fun _ _ => by norm_num), rfl, by decide, by decide,
+   by simp [State.init], by simp [State.init, lit0], by simp [State.init, lit0]⟩
+
+/-- **2-D box step**: `BoxConstrainedProblem::updateSMO(i,j)`, `i ≠ j`, changes the dual objective by exactly the
+`gain` expression of `solveQuadratic2DBox` at the point it returns, which is `≥ 0` when `K_ii ≥ 0`
+(`box2d_gain_nonneg`). -/
+theorem box_step_gain_two {s : RS} (h : Inv s) (he : s.eqc = false) {i j : Nat} (hi : i < s.active) (hj : j < s.active)
+    (hij : i ≠ j) (hQ : 0 ≤ s.diag i) :
+    dualObjective (s.updateSMO i j) - dualObjective s
+      = gain2 (s.g i) (s.g j) (s.diag i) (s.q i j) (s.diag j) ((boxV2 s i j).1 - s.alpha i) ((boxV2 s i j).2 - s.alpha j) ∧
+    dualObjective s ≤ dualObjective (s.updateSMO i j) := by
+  have hd := dual_updateSMO_box_two h he hi hj hij
+  refine ⟨hd, ?_⟩
+  have := box2d_gain_nonneg (s.alpha i) (s.alpha j) (s.g i) (s.g j) (s.diag i) (s.q i j) (s.diag j)
+    (s.boxMin i) (s.boxMax i) (s.boxMin j) (s.boxMax j) hQ
+  unfold boxV2 at hd
+  linarith
+
+/-- FULL STATEMENT (not provable for the code as it is): the 1-D box step never decreases the dual objective.
+PROVED PART: all curvatures outside the guard region `0 < K_ii < 1e-12` of `solveQuadraticEdge`
+(`edge_gain_negative_witness` / `box_step_gain_one_negative_witness` lie inside it). -/
+theorem box_step_gain_one_partial {s : RS} (h : Inv s) (he : s.eqc = false) {i : Nat} (hi : i < s.active)
+    (hQ : s.diag i = 0 ∨ 1 / 1000000000000 ≤ s.diag i) :
+    dualObjective s ≤ dualObjective (s.updateSMO i i) := by
+  have hin : i < s.n := Nat.lt_of_lt_of_le hi h.act_le
+  have hd := dual_updateSMO_box_one h he hi
+  have hb := h.box i hin
+  have := edge_gain_nonneg_partial (s.alpha i) (s.g i) (s.diag i) (s.boxMin i) (s.boxMax i)
+    (by rw [boxMin_eq h hin]; exact hb.1) (by rw [boxMax_eq h hin]; exact hb.2) hQ
+  unfold boxV1 at hd
+  linarith
+
+/-- solver-level witness inside the excluded guard region: one variable, `K = 1e-13`, `lin = 1e-20`, box `[0,1]`,
+cold start: the 1-D step jumps to `α = 1` and the dual objective drops from `0` to `1e-20 − 5e-14`. -/
+theorem box_step_gain_one_negative_witness :
+    let s : RS := State.init 1 (fun _ _ => 1 / 10 ^ 13) false false (fun _ => 1 / 10 ^ 20) (fun _ => 0) (fun _ => 1)
+    dualObjective (s.updateSMO 0 0) < dualObjective s := by
+  intro s
+  have hI : Inv s := init_inv 1 _ false false _ _ _ (fun _ _ => rfl) (fun _ _ => by norm_num)
+  have hd := dual_updateSMO_box_one hI rfl (i := 0) (by decide)
+  have hv : boxV1 s 0 = 1 := by
+    simp only [boxV1, s, State.init, State.boxMin, State.boxMax, solveQuadraticEdge, lit0, litE]
+    norm_num
+  rw [hv] at hd
+  have e1 : s.alpha 0 = 0 := lit0
+  have e2 : s.g 0 = 1 / 10 ^ 20 := rfl
+  have e3 : s.diag 0 = 1 / 10 ^ 13 := rfl
+  rw [e1, e2, e3] at hd
+  have : (1 - 0) * (1 / 10 ^ 20) - 1 / 10 ^ 13 * (1 - 0) * (1 - 0) / 2 < (0 : Rat) := by norm_num
+  linarith
+
+/-- the diagonal of the (unpermuted) matrix never changes -/
+theorem run_K (ops : List Op) : ∀ (s : RS), Inv s → validSeq s ops → (run s ops).K = s.K := by
+  induction ops with
+  | nil => intro s _ _; rfl
+  | cons op ops ih =>
+    intro s h hv
+    have e : (apply s op).K = s.K :=
+      apply_orderFree (F := fun t : RS => t.K) ⟨fun _ _ _ _ hK _ _ _ => hK, fun _ _ _ _ _ => rfl⟩ h hv.1
+        (fun i j _ => (updateSMO_frame s i j).2.2.1)
+    exact (ih _ (apply_inv h hv.1) hv.2).trans e
+
+/-- one operation never decreases the dual objective (hypothesis on the diagonal only for the box kind) -/
+theorem apply_objective {s : RS} (h : Inv s) {op : Op} (hv : op.valid s)
+    (hK : s.eqc = false → ∀ x, s.K x x = 0 ∨ 1 / 1000000000000 ≤ s.K x x) :
+    dualObjective s ≤ dualObjective (apply s op) := by
+  cases op with
+  | flip i j => exact le_of_eq (orderFree_dual.flip s i j hv.1 hv.2.1).symm
+  | unshrink => exact le_of_eq (orderFree_dual.unshrink s).symm
+  | shrink eps => exact le_of_eq (orderFree_dual.shrink h eps).symm
+  | smo i j =>
+    have hin : i < s.n := Nat.lt_of_lt_of_le hv.1 h.act_le
+    cases he : s.eqc
+    · have hd := hK he (s.perm i)
+      rw [← h.diag i hin] at hd
+      by_cases hij : i = j
+      · subst hij; exact box_step_gain_one_partial h he hv.1 hd
+      · refine (box_step_gain_two h he hv.1 hv.2.1 hij ?_).2
+        rcases hd with hd | hd
+        · rw [hd]
+        · exact le_trans (by norm_num) hd
+    · exact (smo_step_gain h he hv.1 hv.2.1 (hv.2.2 he)).2.2.2
+
+/-- **objective monotonicity, equality-constrained problem (full)**: after every admissible history the dual
+objective `lin·α − ½ αᵀKα` is at least what it was before -- any symmetric `K`, no curvature hypothesis. -/
+theorem objective_monotone_svm (ops : List Op) : ∀ (s : RS), Inv s → s.eqc = true → validSeq s ops →
+    dualObjective s ≤ dualObjective (run s ops) := by
+  induction ops with
+  | nil => intro s _ _ _; exact le_refl _
+  | cons op ops ih =>
+    intro s h he hv
+    have he' : (apply s op).eqc = true :=
+      (apply_orderFree orderFree_eqc h hv.1 (fun i j _ => (updateSMO_frame s i j).2.1)).trans he
+    have e := apply_objective h hv.1 (fun hf => by rw [he] at hf; exact absurd hf (by simp))
+    exact le_trans e (ih _ (apply_inv h hv.1) he' hv.2)
+
+/-- FULL STATEMENT (not provable for the code as it is): for every PSD `K` the dual objective never decreases along
+any admissible history of either problem kind.  PROVED PART: all matrices whose diagonal entries are `0` or `≥ 1e-12`
+(outside the curvature guard of the 1-D sub-solver); see `box_step_gain_one_negative_witness`. -/
+theorem objective_monotone_partial (ops : List Op) : ∀ (s : RS), Inv s →
+    (∀ x, s.K x x = 0 ∨ 1 / 1000000000000 ≤ s.K x x) → validSeq s ops →
+    dualObjective s ≤ dualObjective (run s ops) := by
+  induction ops with
+  | nil => intro s _ _ _; exact le_refl _
+  | cons op ops ih =>
+    intro s h hK hv
+    have eK : (apply s op).K = s.K := run_K [op] s h ⟨hv.1, trivial⟩
+    have e := apply_objective h hv.1 (fun _ => hK)
+    exact le_trans e (ih _ (apply_inv h hv.1) (by rw [eK]; exact hK) hv.2)
+
+example : ∃ s : RS, Inv s ∧ (∀ x, s.K x x = 0 ∨ 1 / 1000000000000 ≤ s.K x x) ∧ validSeq s [Op.smo 0 1, Op.smo 0 0] :=
+  ⟨State.init 2 (fun _ _ => 1) false true (fun _ => 1) (fun _ => 0) (fun _ => 1),
+   init_inv 2 _ false true _ _ _ (fun _ _ => rfl) (fun _ _ => by norm_num),
+   fun _ => Or.inr (by simp [State.init]; norm_num),
+   ⟨⟨by decide, by decide, fun h => by simp [State.init] at h⟩,
+    ⟨by show 0 < (State.updateSMO _ 0 1).active; rw [updateSMO_active]; decide,
+     by show 0 < (State.updateSMO _ 0 1).active; rw [updateSMO_active]; decide, fun _ => le_refl _⟩, trivial⟩⟩
 
 end SharkVerif.C08
